@@ -156,6 +156,9 @@ def gen_cases(ctx):
                 if integration == 'werkzeug' and sub:
                     continue
                 yield dict(part='two', integration=integration, order=order, sub=sub)
+        yield dict(part='two', integration='aiohttp', order=order, sub=False, variant='sharedapp')
+        for integration in ('flask', 'aiohttp'):
+            yield dict(part='two', integration=integration, order=order, sub=False, variant='specmap')
     for integration in ('werkzeug', 'flask'):
         for kinds in (('call', 'call'), ('call', 'notif')):
             K = 8
@@ -354,7 +357,7 @@ def run_two_extensions(case, rec):
     from pjrpc.server.integration import flask as ifl
     kind = case['integration']
     obs = []
-    if kind == 'flask':
+    if kind == 'flask' and not case.get('variant'):
         a, b = ifl.JsonRPC('/a'), ifl.JsonRPC('/b')
         if case.get('sub'):
             a.add_endpoint('/x')
@@ -384,6 +387,52 @@ def run_two_extensions(case, rec):
                     rec.violation('C18:flask:one extension object answers with another extension object\'s dispatcher', dict(case, app=tag, method=method),
                                   expected=want or -32601, observed=doc)
                 obs.append(ok)
+    elif case.get('variant') == 'sharedapp':
+        # two pjrpc Applications built on ONE aiohttp application (the documented app= argument), each with its own status function
+        from mc.harness.http import Integration
+        shared = web.Application()
+        fa = (lambda codes: 299 if not any(codes) else 520)
+        first = (('/a', fa), ('/b', None)) if case['order'] == 'ab' else (('/b', None), ('/a', fa))
+        integs = {}
+        for path, f in first:
+            integs[path] = Integration('aiohttp', path, status_by_error=f, main_kwargs=dict(app=shared))
+
+            async def who(_t=path):
+                return _t
+            integs[path].dispatcher.add(who, name='who')
+        shared.freeze()
+        for path, integ in integs.items():
+            integ._ready = True
+            for method, want_status in (('who', 299 if path == '/a' else 200), ('nope', 520 if path == '/a' else 200)):
+                r = integ.post(json.dumps({'jsonrpc': '2.0', 'id': 1, 'method': method}).encode(), 'application/json', path=path)
+                rec.transitions += 1
+                ok = r.status == want_status and not r.raised
+                if not ok:
+                    rec.violation('C18:aiohttp:the reply status is not what the status function configured for THIS application returns (two Applications on one aiohttp app)',
+                                  dict(case, path=path, method=method), expected=want_status, observed=repr(r)[:300])
+                obs.append(ok)
+    elif case.get('variant') == 'specmap':
+        # a specification whose error_http_status_map documents statuses is configured, no status function: the reply status is the default (200)
+        from mc.harness.http import Integration
+        from pjrpc.server.specs import openapi as _oa
+        spec = _oa.OpenAPI(info=_oa.Info(title='t', version='1'), error_http_status_map={-32601: 404, -32602: 422, 1234: 409})
+        integ = Integration(kind, '/a', spec=spec)
+        if kind == 'aiohttp':
+            async def add(a, b):
+                return a + b
+        else:
+            def add(a, b):
+                return a + b
+        integ.dispatcher.add(add, name='add')
+        for body in ({'jsonrpc': '2.0', 'id': 1, 'method': 'nope'}, {'jsonrpc': '2.0', 'id': 1, 'method': 'add', 'params': [1]}, {'jsonrpc': '2.0', 'id': 1, 'method': 'add', 'params': [1, 2]},
+                     [{'jsonrpc': '2.0', 'id': 1, 'method': 'nope'}]):
+            r = integ.post(json.dumps(body).encode(), 'application/json')
+            rec.transitions += 1
+            ok = r.status == 200 and not r.raised
+            if not ok:
+                rec.violation('C18:%s:the reply status is not the default although no status function is configured (a specification documents other statuses)' % kind,
+                              dict(case, body=body), expected=200, observed=repr(r)[:300])
+            obs.append(ok)
     else:
         from mc.harness.http import Integration
         A, B = Integration(kind, '/a'), Integration(kind, '/b')
@@ -579,7 +628,7 @@ def replay(doc):
     from mc.core import Recorder, jdump
     rec = Recorder()
     c = doc['case']
-    run_case({k: c[k] for k in ('part', 'seq', 'status', 'path', 'media', 'body', 'endpoint', 'endpoint_mode', 'target', 'dct', 'accept', 'integration', 'kinds', 'budget', 'shard', 'mount', 'hook', 'chunked', 'main_mw', 'order', 'sub') if k in c}, rec)
+    run_case({k: c[k] for k in ('part', 'seq', 'status', 'path', 'media', 'body', 'endpoint', 'endpoint_mode', 'target', 'dct', 'accept', 'integration', 'kinds', 'budget', 'shard', 'mount', 'hook', 'chunked', 'main_mw', 'order', 'sub', 'variant') if k in c}, rec)
     for v in rec.violations[:6]:
         print('VIOLATION-REPLAY signature=%s\n  expected=%s\n  observed=%s' % (v['signature'], jdump(v['expected'])[:300], jdump(v['observed'])[:300]))
     print('replayed: %d violation(s)' % len(rec.violations))
